@@ -655,9 +655,15 @@ class cleanup_functools_wrapper(object):
 
 
 def autoforwards_function(func, args, kwargs):
+    # functools.wraps copies the annotations of the wrapped function: they
+    # are evaluated where that function lives, which the chain that is about
+    # to be set aside leads to
+    owner = _signatures._annotations_owner(func)
     try:
         with cleanup_functools_wrapper(func):
-            sig = _signatures.signature(func)
+            sig = _util.funcsigs.signature(func)
+        sig = _signatures.Signature._upgrade(
+            sig, owner, _signatures.default_sources(sig, func))
     except (ValueError, TypeError):
         # says nothing about func itself: its wrapper attributes were set aside
         raise UnknownForwards
